@@ -620,6 +620,10 @@ class Sym:
                     for t in n.targets:
                         if isinstance(t, ast.Name):
                             d.setdefault(t.id, []).append(('assign', n.value))
+                        elif isinstance(t, (ast.Tuple, ast.List)) and isinstance(n.value, (ast.Tuple, ast.List)) and len(t.elts) == len(n.value.elts) \
+                                and all(isinstance(e, ast.Name) for e in t.elts):
+                            for te, ve in zip(t.elts, n.value.elts):
+                                d.setdefault(te.id, []).append(('assign', ve))
                         else:
                             for x in ast.walk(t):
                                 if isinstance(x, ast.Name) and isinstance(x.ctx, ast.Store):
